@@ -110,7 +110,7 @@ def make_case(case, seed, thorough):
         mapargs = []
         extra += ["-m"]
     elif r < 0.3:
-        mapargs = [f"{sport}:{rng.randrange(1, 65536)}"]
+        mapargs = [f"{sport}:{tcpcap.map_target(rng)}"]
         extra += ["-m"] + mapargs
     cls = [suites.VNAME[v], f"{code:04X}", "resumed" if spec.resumed else "full", "g" + "".join(map(str, spec.group_server_flight)),
            cl["pattern"], segkind, "v6" if ep.v6 else "v4"]
